@@ -1,6 +1,7 @@
 package drv
 
 import (
+	"os"
 	"fmt"
 	"time"
 )
@@ -9,7 +10,14 @@ import (
 // concurrent batches, then pushing schedule choices towards 0.  A candidate is
 // kept only if the same oracle fails with the same signature.  The result is
 // re-executed once more (replay mode) before it is returned.
-func Shrink(chk FullCheck, sc *Scenario, v *Violation, budget time.Duration) (*Scenario, *Violation) {
+func Shrink(chk FullCheck, sc *Scenario, v *Violation, budget time.Duration) (rs *Scenario, rv *Violation) {
+	// a failure of the minimiser must never swallow the violation: fall back to the unminimised scenario
+	defer func() {
+		if e := recover(); e != nil {
+			fmt.Fprintf(os.Stderr, "shrink: internal error (%v); reporting the unminimised scenario\n", e)
+			rs, rv = sc, v
+		}
+	}()
 	deadline := time.Now().Add(budget)
 	best, bestV := sc, v
 	tries := 0
@@ -92,7 +100,7 @@ func Shrink(chk FullCheck, sc *Scenario, v *Violation, budget time.Duration) (*S
 		}
 	}
 	// 3. schedule choices towards 0
-	for i := range best.Sched {
+	for i := 0; i < len(best.Sched); i++ { // best may be replaced by a shorter scenario inside the loop
 		if time.Now().After(deadline) {
 			break
 		}
